@@ -39,6 +39,9 @@ DOMS = {
     "dC_t": L.B(L.C_MOVE),
     "dCut_t": L.B(L.Cut(L.SQ, L.G_CMOVE, contained=True)),
     "dI_t": L.B(L.I(0, L.aff(1, t=1))),
+    # product DOMAINS that still need an external parameter (dependent first factor / parameter in the second factor)
+    "PD_st": L.X(L.C_ST, L.I(0, 1, var="s")),
+    "PD_s": L.X(L.I_STEEP, L.I(0, L.aff(0.5, s=0.5), var="t")),
     "T": L.IT,
     "S": L.I(0, 1, var="s"),
     "Y": L.I(0, 2, var="y"),
